@@ -44,7 +44,9 @@ type c08Report struct {
 	Stamps  map[string]string `json:"stamps"`
 	Errs    map[string]string `json:"errs"`
 	Shapes  map[string]string `json:"shapes"`
-	Same    map[string]bool   `json:"same"` // engine-style comparison with the base stamp given in .base_stamp
+	Same    map[string]bool   `json:"same"`  // engine-style comparison with the base stamp given in .base_stamp
+	Skel    map[string]string `json:"skel"`  // expansion tree of function environments in the decoded fingerprint
+	Graph   map[string]string `json:"graph"` // reified function graph: "root;id:label:m1,m2;..."
 }
 
 // shape dumps the decoded environment as a canonical string (types and structure; dict keys in insertion order)
@@ -102,7 +104,7 @@ func TestVerifC08Child(t *testing.T) {
 	}
 	root := os.Getenv("VERIF_ROOT")
 	os.Setenv("HOME", filepath.Join(root, ".home"))
-	rep := c08Report{Stamps: map[string]string{}, Errs: map[string]string{}, Shapes: map[string]string{}, Same: map[string]bool{}}
+	rep := c08Report{Stamps: map[string]string{}, Errs: map[string]string{}, Shapes: map[string]string{}, Same: map[string]bool{}, Skel: map[string]string{}, Graph: map[string]string{}}
 	baseStamp, _ := os.ReadFile(filepath.Join(root, ".base_stamp"))
 	baseLabel := os.Getenv("VERIF_BASE_LABEL")
 	defer func() {
@@ -140,6 +142,12 @@ func TestVerifC08Child(t *testing.T) {
 		var sb strings.Builder
 		c08Shape(env, 0, &sb)
 		rep.Shapes[l] = sb.String()
+		if fn, ok := f.function.(*starlark.Function); ok {
+			var sk strings.Builder
+			c08Skeleton(env, map[any]bool{}, &sk)
+			rep.Skel[l] = sk.String()
+			rep.Graph[l] = c08Reify(fn)
+		}
 		// the decoded stamp equals the environment computed directly (what function.load + upToDate compare)
 		dec, err := pickle.NewDecoder(base64.NewDecoder(base64.StdEncoding, strings.NewReader(buf.String())), pickle.UnpicklerFunc(envUnpickler)).Decode()
 		if err != nil {
@@ -318,7 +326,9 @@ func TestVerifC08(t *testing.T) {
 	defer f.Close()
 	line := func(parts ...string) { f.WriteString(strings.Join(parts, "\t") + "\n") }
 
-	for pi, p := range c08Programs() {
+	nrand, _ := strconv.Atoi(os.Getenv("VERIF_NRAND"))
+	progs := append(c08Programs(), c08RandomPrograms(rng, nrand)...)
+	for pi, p := range progs {
 		names := make([]string, 0, len(p.Files))
 		for n := range p.Files {
 			names = append(names, n)
@@ -351,6 +361,11 @@ func TestVerifC08(t *testing.T) {
 		}
 		s1 := rep1.Stamps[p.Target]
 		line("case", p.Name, "base", strconv.Itoa(len(s1)), rep1.Shapes[p.Target])
+		if g, ok := rep1.Graph[p.Target]; ok && p.Name != "function-keyed-dict" {
+			// (a function used as a dict key is dropped from the DECODED environment -- the stamp still has it, and stamps are
+			// what the engine compares since a7d2e7f -- so the decoded skeleton is not comparable for that program)
+			line("graph", p.Name, g, rep1.Skel[p.Target])
+		}
 		// determinism: the same text, another process, another creation order, another GOMAXPROCS
 		for k := 0; k < 2; k++ {
 			// the same location (path() and label() values mention it), files re-created in another order
@@ -401,4 +416,213 @@ func TestVerifC08(t *testing.T) {
 		}
 		os.RemoveAll(root1)
 	}
+}
+
+// ---------------------------------------------------------------------------------------------
+// skeleton of the decoded fingerprint and reified function graph (tie to coq/Fingerprint/Model.v)
+
+func c08Label(code []byte) int {
+	h := 0
+	for _, b := range code {
+		h = (h*131 + int(b)) % 1000003
+	}
+	return h + 1
+}
+
+var c08FnKeys = []string{"default parameter values", "free variables", "constant values", "predeclared values", "universal values", "function values", "global values"}
+
+// c08Skeleton prints, in pickling order, the tree of function environments that are expanded in the decoded value:
+// a function is a dict with "default parameter values"; later occurrences of the same object and placeholders print nothing.
+func c08Skeleton(v starlark.Value, seen map[any]bool, b *strings.Builder) {
+	switch v := v.(type) {
+	case starlark.Tuple:
+		for _, e := range v {
+			c08Skeleton(e, seen, b)
+		}
+	case *starlark.List:
+		if seen[v] {
+			return
+		}
+		seen[v] = true
+		for i := 0; i < v.Len(); i++ {
+			c08Skeleton(v.Index(i), seen, b)
+		}
+	case *starlark.Set:
+		if seen[v] {
+			return
+		}
+		seen[v] = true
+		it := v.Iterate()
+		var e starlark.Value
+		for it.Next(&e) {
+			c08Skeleton(e, seen, b)
+		}
+		it.Done()
+	case *starlark.Dict:
+		if seen[v] {
+			return
+		}
+		seen[v] = true
+		if _, isFn, _ := v.Get(starlark.String("default parameter values")); isFn {
+			code, _, _ := v.Get(starlark.String("code"))
+			cb, _ := code.(starlark.Bytes)
+			fmt.Fprintf(b, "F%d(", c08Label([]byte(cb)))
+			for _, k := range c08FnKeys {
+				if x, ok, _ := v.Get(starlark.String(k)); ok {
+					c08Skeleton(x, seen, b)
+				}
+			}
+			b.WriteString(")")
+			return
+		}
+		if _, isCode, _ := v.Get(starlark.String("code")); isCode {
+			if _, hasNames, _ := v.Get(starlark.String("names")); hasNames {
+				for _, k := range c08FnKeys[2:] {
+					if x, ok, _ := v.Get(starlark.String(k)); ok {
+						c08Skeleton(x, seen, b)
+					}
+				}
+				return
+			}
+		}
+		for _, kv := range v.Items() {
+			c08Skeleton(kv[0], seen, b)
+			c08Skeleton(kv[1], seen, b)
+		}
+	}
+}
+
+// c08Reify walks the live objects exactly as envPickler exposes them and returns the function graph.
+func c08Reify(root *starlark.Function) string {
+	ids := map[*starlark.Function]int{}
+	var order []*starlark.Function
+	idOf := func(f *starlark.Function) int {
+		if id, ok := ids[f]; ok {
+			return id
+		}
+		ids[f] = len(ids) + 1
+		order = append(order, f)
+		return ids[f]
+	}
+	var mentions func(v starlark.Value, seen map[any]bool, out *[]int)
+	var codeMentions func(c *starlark.FunctionCode, out *[]int, seen map[any]bool)
+	codeMentions = func(c *starlark.FunctionCode, out *[]int, seen map[any]bool) {
+		module, globals := c.ModuleEnv()
+		// module = (names, constants, predeclared, universals, functions)
+		mentions(module[1], seen, out)
+		mentions(module[2], seen, out)
+		mentions(module[3], seen, out)
+		for _, nested := range module[4].(starlark.Tuple) {
+			codeMentions(nested.(*starlark.FunctionCode), out, seen)
+		}
+		mentions(globals, seen, out)
+	}
+	mentions = func(v starlark.Value, seen map[any]bool, out *[]int) {
+		switch v := v.(type) {
+		case *starlark.Function:
+			*out = append(*out, idOf(v))
+		case *starlark.FunctionCode:
+			codeMentions(v, out, seen)
+		case starlark.Tuple:
+			for _, e := range v {
+				mentions(e, seen, out)
+			}
+		case *starlark.List:
+			if seen[v] {
+				return
+			}
+			seen[v] = true
+			for i := 0; i < v.Len(); i++ {
+				mentions(v.Index(i), seen, out)
+			}
+		case *starlark.Dict:
+			if seen[v] {
+				return
+			}
+			seen[v] = true
+			for _, kv := range v.Items() {
+				mentions(kv[0], seen, out)
+				mentions(kv[1], seen, out)
+			}
+		case *starlark.Set:
+			if seen[v] {
+				return
+			}
+			seen[v] = true
+			it := v.Iterate()
+			var e starlark.Value
+			for it.Next(&e) {
+				mentions(e, seen, out)
+			}
+			it.Done()
+		}
+	}
+	rootID := idOf(root)
+	var parts []string
+	for i := 0; i < len(order); i++ {
+		f := order[i]
+		var ms []int
+		seen := map[any]bool{}
+		defaults, freevars := f.Env()
+		mentions(defaults, seen, &ms)
+		mentions(freevars, seen, &ms)
+		codeMentions(f.Code(), &ms, seen)
+		strs := make([]string, len(ms))
+		for j, m := range ms {
+			strs[j] = strconv.Itoa(m)
+		}
+		parts = append(parts, fmt.Sprintf("%d:%d:%s", ids[f], c08Label(f.Code().Bytecode()), strings.Join(strs, ",")))
+	}
+	return strconv.Itoa(rootID) + ";" + strings.Join(parts, ";")
+}
+
+// c08RandomPrograms: random call graphs among helper functions (self loops, mutual recursion, shared helpers, a helper
+// stored in a global list, one passed as a default argument); every helper reachable from the target is edited in turn.
+func c08RandomPrograms(rng *rand.Rand, n int) []c08Prog {
+	var out []c08Prog
+	for i := 0; i < n; i++ {
+		nf := 2 + rng.Intn(6)
+		calls := make([][]int, nf)
+		for a := 0; a < nf; a++ {
+			for b := 0; b < nf; b++ {
+				if rng.Intn(3) == 0 {
+					calls[a] = append(calls[a], b)
+				}
+			}
+		}
+		var b strings.Builder
+		for a := 0; a < nf; a++ {
+			fmt.Fprintf(&b, "def h%d(n):\n    if n <= 0:\n        return %d\n", a, 100+a)
+			for _, c := range calls[a] {
+				fmt.Fprintf(&b, "    h%d(n - 1)\n", c)
+			}
+			fmt.Fprintf(&b, "    return n + %d\n\n", 200+a)
+		}
+		inList := rng.Intn(nf)
+		asDefault := rng.Intn(nf)
+		direct := rng.Intn(nf)
+		fmt.Fprintf(&b, "HL = [h%d, 1]\n\n@target()\ndef t(self, d=h%d):\n    print(h%d(2), HL[0](1), d(1))\n", inList, asDefault, direct)
+		// reachable helpers
+		reach := map[int]bool{}
+		var visit func(int)
+		visit = func(a int) {
+			if reach[a] {
+				return
+			}
+			reach[a] = true
+			for _, c := range calls[a] {
+				visit(c)
+			}
+		}
+		visit(inList)
+		visit(asDefault)
+		visit(direct)
+		p := c08Prog{Name: fmt.Sprintf("random-%d", i), Target: "//:t", Files: map[string]string{"BUILD.dawn": b.String()}}
+		for a := 0; a < nf; a++ {
+			p.Muts = append(p.Muts, c08Mut{fmt.Sprintf("body of h%d (reachable=%v)", a, reach[a]), "BUILD.dawn",
+				fmt.Sprintf("return n + %d\n", 200+a), fmt.Sprintf("return n - %d\n", 200+a), reach[a]})
+		}
+		out = append(out, p)
+	}
+	return out
 }
